@@ -36,6 +36,15 @@ theorem mapEqBut_remove (x : Hdrs σ) : mapEqBut src (SMap.remove x src) x = tru
   · exact Or.inl e
   · right; simp [val, SMap.remove, get?_erase_ne _ _ _ (Ne.symm e)]
 
+theorem mapEqBut_val {a b : Hdrs σ} (h : mapEqBut src a b = true) (k : σ) (hk : k ≠ src) : val a k = val b k := by
+  unfold mapEqBut at h
+  rw [List.all_eq_true] at h
+  by_cases hm : k ∈ keys a ++ keys b
+  · have := h k hm
+    simpa [hk] using this
+  · simp only [List.mem_append, not_or] at hm
+    simp [val, (get?_eq_none_iff a k).mpr hm.1, (get?_eq_none_iff b k).mpr hm.2]
+
 /-- **combined_spec** (observation form): `combined_headers(ty)` is the stored search headers overlaid by the
     stored advertisement headers, the entry `_source` apart -/
 theorem comb_ok (d : Dev σ) (ty : σ) :
